@@ -112,6 +112,38 @@ func classifyCounterStores(p *Prog, e *Effects, cf counterField) []counterStore 
 					case bo.Op == token.ADD && ((isLoadOfSameField(bo.X, fa) && isLenOfVariadic(fn, bo.Y)) || (isLoadOfSameField(bo.Y, fa) && isLenOfVariadic(fn, bo.X))):
 						cs.form = "+len"
 					}
+					if cs.form == "?" {
+						// the same forms spelled differently (`size += len(values) - 1 + 1`, `size = 1 + size`): as a linear form
+						var lf func(x ssa.Value, depth int) lin
+						lf = func(x ssa.Value, depth int) lin {
+							x = stripChange(x)
+							if c, ok := constInt(x); ok {
+								return linConst(int(c))
+							}
+							if isLoadOfSameField(x, fa) {
+								return linAtom("F")
+							}
+							if isLenOfVariadic(fn, x) {
+								return linAtom("LEN")
+							}
+							if b2, ok := x.(*ssa.BinOp); ok && depth < 6 && (b2.Op == token.ADD || b2.Op == token.SUB) {
+								sign := 1
+								if b2.Op == token.SUB {
+									sign = -1
+								}
+								return lf(b2.X, depth+1).add(lf(b2.Y, depth+1), sign)
+							}
+							return linAtom("?" + x.Name())
+						}
+						switch lf(v, 0).String() {
+						case linAtom("F").add(linConst(1), 1).String():
+							cs.form = "+1"
+						case linAtom("F").add(linConst(1), -1).String():
+							cs.form = "-1"
+						case linAtom("F").add(linAtom("LEN"), 1).String():
+							cs.form = "+len"
+						}
+					}
 				} else if call, ok := v.(*ssa.Call); ok {
 					cal := StaticCallee(&call.Call)
 					if cal != nil && recvNamed(cal) == cf.st && len(call.Call.Args) == 1 && stripChange(call.Call.Args[0]) == stripChange(fa.X) {
@@ -213,6 +245,12 @@ func otherOperand(b *ssa.BinOp, o ssa.Value) ssa.Value {
 
 func gcHasAllocLink(g *GC) bool {
 	for _, e := range g.Effects {
+		// array-backed: a parameter value written into a slot of a slice field of the receiver is the new element
+		if isStore(e) && e.Args[0].Op == "ia" && len(e.Args[0].Args) == 2 && e.Args[1].Op == "p" {
+			if b := e.Args[0].Args[0]; b.Op == "load" && len(b.Args) == 1 && b.Args[0].Op == "fa" && len(b.Args[0].Args) == 1 && b.Args[0].Args[0].String() == "p:0" {
+				return true
+			}
+		}
 		if isStore(e) && isNewTerm(e.Args[1]) {
 			// a fresh object stored into something that is not itself that fresh object's own field initialisation
 			if !e.Args[0].any(isNewTerm) {
@@ -511,6 +549,40 @@ func incrementPaired(c *Ctx, cs counterStore, gc *GCNF, g *GC) (bool, string) {
 				if a.Op == "<" && a.Args[1].Op == "len" && a.Args[1].Args[0].Op == "slice" && a.Args[1].Args[0].Args[0].String() == vs && a.Args[1].Args[0].Args[2].Op == "_" {
 					if k, ok := a.Args[1].Args[0].Args[1].constInt(); ok && k > 0 {
 						isBody, skipped = true, int(k)
+					}
+				}
+			}
+			if !isBody && x.Exit.Op == "goto" && x.Exit.Leaf == itoa(x.From) {
+				// the same number of rounds counted down: a counter that enters at len(values) and runs while > 0, or enters at
+				// len(values)-1 and runs while >= 0, one step down per round
+				for j, a := range x.Exit.Args {
+					phi := "φ:" + itoa(x.From) + "." + itoa(j)
+					if d := linOf(a).add(linAtom(phi), -1); len(d.c) != 0 || d.k != -1 {
+						continue
+					}
+					strictGT, nonStrict := false, false
+					for _, gd := range x.Guards {
+						if gd.Op == "<" && len(gd.Args) == 2 && gd.Args[0].String() == "#:0" && gd.Args[1].String() == phi {
+							strictGT = true
+						}
+						if gd.Op == "<=" && len(gd.Args) == 2 && gd.Args[0].String() == "#:0" && gd.Args[1].String() == phi {
+							nonStrict = true
+						}
+					}
+					okEntry := true
+					nEntry := 0
+					for _, en := range gc.GCs {
+						if en.Exit.Op != "goto" || en.Exit.Leaf != x.Exit.Leaf || en.From == x.From || j >= len(en.Exit.Args) {
+							continue
+						}
+						nEntry++
+						start := linOf(en.Exit.Args[j]).add(linAtom("(len "+vs+")"), -1)
+						if len(start.c) != 0 || !((start.k == 0 && strictGT) || (start.k == -1 && nonStrict)) {
+							okEntry = false
+						}
+					}
+					if okEntry && nEntry > 0 {
+						isBody = true
 					}
 				}
 			}
